@@ -659,6 +659,9 @@ def run():
             ego = vf.build_ego(sd, _FMT["ov"])
         env = vf.ego_env(sd)
         if dev:
+            only = os.environ.get("C05_DEV_ONLY")
+            if only:
+                cases = [c for c in cases if re.search(only, c["id"])]
             cases = rng.sample(cases, min(dev, len(cases)))
         units = [Unit(c, vi) for c in cases for vi in range(len(c["vars"]))]
         groups = {}
